@@ -63,6 +63,22 @@ fn check_root(neg: bool, a: &[u64], n: u32) -> Verdict {
         ctx(eq_bu(&v, &nat_of_bu(&v)), "BigUint::nth_root canonical")?;
         Some(v)
     };
+    // the Roots trait methods (generic callers) must agree with the inherent ones
+    {
+        use num_integer::Roots;
+        ctx(must_return("Roots::sqrt", || Roots::sqrt(&u)).and_then(|v| eq_bu(&v, &nat_of_bu(&s2))), "<BigUint as Roots>::sqrt")?;
+        ctx(must_return("Roots::cbrt", || Roots::cbrt(&u)).and_then(|v| eq_bu(&v, &nat_of_bu(&s3))), "<BigUint as Roots>::cbrt")?;
+        match &sn {
+            Some(v0) => ctx(must_return("Roots::nth_root", || Roots::nth_root(&u, n)).and_then(|v| eq_bu(&v, &nat_of_bu(v0))), "<BigUint as Roots>::nth_root")?,
+            None => must_panic("<BigUint as Roots>::nth_root(0)", || Roots::nth_root(&u, 0))?,
+        }
+        if r.neg {
+            must_panic("<BigInt as Roots>::sqrt of a negative", || Roots::sqrt(&x))?;
+        } else {
+            ctx(must_return("Roots::sqrt", || Roots::sqrt(&x)).and_then(|v| eq_bi(&v, &RefInt::from_nat(nat_of_bu(&s2)))), "<BigInt as Roots>::sqrt")?;
+        }
+        ctx(must_return("Roots::cbrt", || Roots::cbrt(&x)).and_then(|v| eq_bi(&v, &RefInt::new(r.neg, nat_of_bu(&s3)))), "<BigInt as Roots>::cbrt")?;
+    }
     // ---- BigInt ----
     let signed = |deg: u32, got: Result<num_bigint::BigInt, String>, what: &str| -> Result<(), String> {
         // only called when the documented domain allows a result
